@@ -47,7 +47,7 @@ def features_name(features):
 def read_real(path, sheet):
     m = harness.modules()
     try:
-        return "rows", [list(row) for row in m["rowio"].ods_rows(path, sheet)]
+        return "rows", [list(row) for row in list(m["rowio"].ods_rows(path, sheet))]
     except m["errors"].DataFormatError as error:
         return "DataFormatError", str(error)
     except Exception as error:
@@ -104,7 +104,7 @@ def judge(case, part):
         width = widths.pop()
         rows = [["D", "Format", "ODS"], ["D", "Sheet", str(sheet)]] + [["F", "c%d" % i, "", "X", "", "Text", ""] for i in range(width)]
         try:
-            back = [list(row) for row in cutplace.rows(harness.make_cid(rows), path)]
+            back = [list(row) for row in list(cutplace.rows(harness.make_cid(rows), path))]
         except Exception as error:
             back = "raised-%s: %s" % (type(error).__name__, error)
         part.transitions += 1
